@@ -66,6 +66,10 @@ def cases(tier, seed):
     for stage in (1, 3):
         for ratio in (None, 1):
             yield "nopsf", dict(stage=stage, ratio=ratio)
+    # an explicit linking length (arcmin) larger than the blend's separation (0.92') keeps the blend in one fitting group
+    for stage in (1, 2, 3):
+        for eps in (1.0, 2.0):
+            yield "explicit_eps", dict(stage=stage, eps=eps)
     # ratio = 1 is the identity whatever the catalogue's psf columns say (a catalogue made at another resolution)
     for stage in (1, 2, 3):
         for scale in (0.7, 1.25):
@@ -406,6 +410,33 @@ def ev_paconv(case, ctx):
                     ctx.violation("stage 3: position angle of %s = %.4f, catalogue %.4f (same ellipse modulo 180) (%s)" % (s_.uuid, s_.pa, c_[0].pa, sig), "pa|" + sig)
 
 
+def ev_explicit_eps(case, ctx):
+    d = os.environ["VERIF_SCRATCH"]
+    hdr = hdr_()
+    srcs = base_catalogue(hdr)
+    cat = [to_component(s, hdr, k) for k, s in enumerate(srcs)]
+    truth = {c.uuid: s for c, s in zip(cat, srcs)}
+    f = os.path.join(d, "c05x.fits")
+    scenes.write_image(f, hdr, skygauss.render(hdr, SHAPE, srcs))
+    sig = "explicit_eps:stage=%d,regroup_eps=%g'" % (case["stage"], case["eps"])
+    ctx.count("explicit_eps")
+    ctx.nontrivial(sig)
+    try:
+        out = run(f, cat, stage=case["stage"], doregroup=True, regroup_eps=case["eps"])
+    except Exception as e:
+        ctx.violation("priorized fit raised %r (%s)" % (e, sig), "raise|" + sig)
+        return
+    ctx.outcome("explicit_eps_n=%d" % len(out))
+    check_against_truth(out, cat, truth, hdr, case["stage"], ctx, sig, sig)
+    isl = {}
+    for s_ in out:
+        isl.setdefault(s_.island, []).append(s_.uuid)
+    groups = sorted(sorted(v) for v in isl.values())
+    want = sorted([[cat[0].uuid], [cat[1].uuid], sorted([cat[2].uuid, cat[3].uuid])])
+    if groups != want:
+        ctx.violation("regroup_eps = %g arcmin: fitting groups %r, expected the blend (0.92' apart) together and the two isolated sources alone (%s)" % (case["eps"], groups, sig), "explicit_eps_groups|" + sig)
+
+
 def ev_otherpsf(case, ctx):
     d = os.environ["VERIF_SCRATCH"]
     hdr = hdr_()
@@ -457,4 +488,4 @@ def ev_many(case, ctx):
 
 
 def evaluate(clause, case, ctx):
-    dict(single=ev_single, edges=ev_edges, permutations=ev_permutations, badrows=ev_badrows, badrows_in_group=ev_badrows_in_group, nopsf=ev_nopsf, many=ev_many, otherpsf=ev_otherpsf, paconv=ev_paconv)[clause](case, ctx)
+    dict(single=ev_single, edges=ev_edges, permutations=ev_permutations, badrows=ev_badrows, badrows_in_group=ev_badrows_in_group, nopsf=ev_nopsf, many=ev_many, otherpsf=ev_otherpsf, paconv=ev_paconv, explicit_eps=ev_explicit_eps)[clause](case, ctx)
